@@ -10,6 +10,9 @@ A case (dict):
   want       subset of {"orig", "inst"}
 Result (dict): orig / inst run records, instrumentation return codes, id maps.
 """
+import warnings
+
+warnings.filterwarnings("ignore", category=SyntaxWarning)
 import contextlib
 import importlib
 import importlib.util
